@@ -118,6 +118,17 @@ void h_cancel(void)
 }
 
 /* ---------------------------------------------------------------------------------------------------------------- */
+/* the comparison the heap is built on: earlier time first; a strict order (loop-free, unbounded) */
+void h_less(void)
+{
+  HeapItem a, b, c; IORA_TRUE = 1;
+  IORA_CANARY("h_less: reached");
+  /* O1 */ __CPROVER_assert(!(a.tp < b.tp) || (less(&a, &b) && !less(&b, &a)), "O1 an earlier time is always less");
+  /* O2 */ __CPROVER_assert(!less(&a, &a) && !(less(&a, &b) && less(&b, &a)), "O2 less is irreflexive and asymmetric");
+  /* O3 */ __CPROVER_assert(!(less(&a, &b) && less(&b, &c)) || less(&a, &c), "O3 less is transitive");
+  /* O4 */ __CPROVER_assert(less(&a, &b) || less(&b, &a) || (a.tp == b.tp && a.id == b.id), "O4 less is total on distinct (time, id) pairs");
+}
+
 /* INV_P establishment: schedulePeriodic's guard prefix (everything before `auto deadline = Clock::now() + interval;`)  */
 void h_periodic_guard(void)
 {
@@ -138,7 +149,8 @@ void h_periodic_guard(void)
 /* bounded stand-in B(7): heap order of siftUp / siftDown / heapPop on up to 7 items (written-out harness, no harness loops) */
 HeapItem GX;   /* arbitrary witness value for the multiset clause */
 #define HA(S, i) ((S)._heap.a[i])
-#define PARENT_OK(S, i) (!((i) < (S)._heap.n) || !less(&HA(S, i), &HA(S, ((i) - 1) / 2)))
+/* heap order is stated independently of the code's comparison: EARLIEST TIME FIRST (the id tie-break is an implementation detail) */
+#define PARENT_OK(S, i) (!((i) < (S)._heap.n) || HA(S, ((i) - 1) / 2).tp <= HA(S, i).tp)
 #define HEAP_OK(S) (PARENT_OK(S, 1) && PARENT_OK(S, 2) && PARENT_OK(S, 3) && PARENT_OK(S, 4) && PARENT_OK(S, 5) && PARENT_OK(S, 6))
 #define EQX(S, i) (((i) < (S)._heap.n && HA(S, i).tp == GX.tp && HA(S, i).id == GX.id) ? 1 : 0)
 #define COUNTX(S) (EQX(S, 0) + EQX(S, 1) + EQX(S, 2) + EQX(S, 3) + EQX(S, 4) + EQX(S, 5) + EQX(S, 6))
@@ -153,7 +165,7 @@ void h_heap_pop(void)
   /* H1 */ __CPROVER_assert(S._heap.n == (n0 == 0 ? 0 : n0 - 1), "H1 heapPop removes exactly one item (none from an empty heap)");
   /* H2 */ __CPROVER_assert(HEAP_OK(S), "H2 heap order is restored after heapPop");
   /* H3 */ __CPROVER_assert(n0 == 0 || COUNTX(S) == c0 - ((min0.tp == GX.tp && min0.id == GX.id) ? 1 : 0), "H3 the item removed is the old minimum; every other item is kept (multiset, witness value)");
-  /* H4 */ __CPROVER_assert(S._heap.n == 0 || !less(&S._heap.a[0], &min0), "H4 the new minimum is not earlier than the one removed (items are collected in deadline order)");
+  /* H4 */ __CPROVER_assert(S._heap.n == 0 || S._heap.a[0].tp >= min0.tp, "H4 the new minimum is not earlier than the one removed (items are collected in deadline order)");
 }
 
 void h_heap_push(void)
